@@ -199,6 +199,7 @@ def r5_no_nested_scope(ctx):
 
 
 def r6_templates(ctx):
+    _format_pattern(ctx)
     """One iteration of the template scanner, decided on resolved values for every path through the loop body:
     what is appended to the output and what remains of the text, as expressions over the text before the
     iteration, the parser object and the requested node."""
@@ -344,6 +345,19 @@ def _isclose_calls(node):
     return [c for c in ast.walk(node) if isinstance(c, ast.Call) and dotted_name(c.func) in ("np.isclose", "isclose", "math.isclose", "numpy.isclose")]
 
 
+def _tolerances(call):
+    """(rtol, atol) texts of an isclose call: keywords, or positions 3 and 4 of np.isclose(a, b, rtol, atol)."""
+    kw = {k.arg: norm(k.value) for k in call.keywords if k.arg}
+    rtol = kw.get("rtol", kw.get("rel_tol"))
+    atol = kw.get("atol", kw.get("abs_tol"))
+    if dotted_name(call.func) in ("np.isclose", "numpy.isclose", "isclose"):
+        if rtol is None and len(call.args) >= 3:
+            rtol = norm(call.args[2])
+        if atol is None and len(call.args) >= 4:
+            atol = norm(call.args[3])
+    return rtol, atol
+
+
 def r8_comparisons(ctx):
     from ..literal import Evaluator
     smod = ctx.repo.module("src/scinumtools/dip/settings.py")
@@ -353,9 +367,17 @@ def r8_comparisons(ctx):
     ms = methods(c)
     # equality: every numeric return is an isclose with the relative tolerance
     eq = ms.get("__eq__")
-    calls = _isclose_calls(eq) if eq is not None else []
-    ok = bool(calls) and all(any(k.arg in ("rtol", "rel_tol") and norm(k.value) == "Numeric.PRECISION" for k in c2.keywords) for c2 in calls)
-    ctx.check(ok, TNUM, "NumberType.__eq__", "numeric equality is isclose with the relative tolerance Numeric.PRECISION", detail=[norm(x)[:70] for x in calls])
+    calls = [c2 for name in ("__eq__", "__le__", "__ge__") if ms.get(name) is not None for c2 in _isclose_calls(ms[name])]
+    ctx.form(bool(_isclose_calls(eq)) if eq is not None else False, TNUM, "NumberType.__eq__", "numeric equality is a tolerant comparison (isclose)")
+    for c2 in calls:
+        rtol, atol = _tolerances(c2)
+        what = "tolerant comparisons use the relative tolerance Numeric.PRECISION and no wider absolute tolerance than NumPy's default 1e-8"
+        if rtol is not None and rtol not in ("Numeric.PRECISION", "1e-06", "1e-6"):
+            ctx.violated(TNUM, "NumberType", what, detail=norm(c2)[:90], expected="rtol=Numeric.PRECISION")
+        elif atol is not None and atol in ("Numeric.PRECISION", "1e-06", "1e-6", "rtol"):
+            ctx.violated(TNUM, "NumberType", what, detail=f"{norm(c2)[:90]}: absolute tolerance {atol}: values below 1e-6 in the node's unit all compare equal", expected="atol left at its default")
+        else:
+            ctx.form(rtol is not None and atol in (None, "0", "0.0", "1e-08", "1e-8"), TNUM, "NumberType", what, detail=norm(c2)[:90])
     # inequality: negation of the tolerant equality
     ne = ms.get("__ne__")
     if ne is None:
@@ -426,6 +448,64 @@ def r9_stateless_atoms(ctx):
     ctx.floor("solver methods scanned for state", n, 8)
 
 
+FORMAT_SPECS = (":e", ":d", ":s", ":f", ":b", ":.3e", ":05d", ":.2f", ":10.3f", ":6s", ":3d", ":.0f")
+
+
+def _format_pattern(ctx):
+    """`{{ref}:spec}`: the pattern that recognises the spec is a literal; whether it accepts a spec is a property of that
+    regular expression alone (decided on the pattern, nothing of the repository is run).  Every spec of the frozen
+    table - type letters of format() with optional width and precision, as used in the documentation - has to be
+    taken in full, otherwise the template solver meets ':' where it expects '}' and leaves the placeholder as text."""
+    import re as _re
+    rel = "src/scinumtools/dip/nodes/parser.py"
+    fn = ctx.fn(rel, "Parser.part_format")
+    pats = [c.args[0] for c in ast.walk(fn) if isinstance(c, ast.Call) and dotted_name(c.func) in ("re.match", "re.compile", "re.search", "re.fullmatch") and c.args]
+    lit = [p_.value for p_ in pats if isinstance(p_, ast.Constant) and isinstance(p_.value, str)]
+    if len(lit) != 1:
+        ctx.form(False, rel, "Parser.part_format", "the format-spec pattern is a single literal", detail=[norm(p_) for p_ in pats])
+        return
+    try:
+        rx = _re.compile(lit[0])
+    except _re.error as e:
+        ctx.violated(rel, "Parser.part_format", "the format-spec pattern is a valid regular expression", detail=str(e))
+        return
+    bad = []
+    for spec in FORMAT_SPECS:
+        m = rx.match(spec + "}")
+        if not m or m.group(0) != spec:
+            bad.append(f"{spec}: " + ("not recognised" if not m else f"only {m.group(0)!r} taken"))
+    ctx.check(not bad, rel, "Parser.part_format", "every documented format spec (type letter with optional width/precision) is recognised in full",
+              detail=bad or None, expected=f"pattern {lit[0]!r} accepts each of {list(FORMAT_SPECS)}")
+
+
+def r10_current_values(ctx):
+    """A reference inside an expression stands for the node's current value.  Re-assignments update the typed value
+    (`node.value`) only; `value_raw`/`units_raw` keep the text of the first occurrence.  So an operand built from a
+    requested node reads `node.value.value` / `node.value.unit` (or the typed value itself), never the raw fields."""
+    from ..flowexpr import paths
+    n = 0
+    for rel, q in ((NS, "NumericalSolver._parse_atom"), (LS, "LogicalSolver._eval_node"), (TS, "TemplateSolver.solve")):
+        fn = ctx.fn(rel, q)
+        raw, typed = set(), set()
+        for pth in paths(fn):
+            for e in pth.events:
+                if e.resolved is None or not isinstance(e.resolved, ast.AST):
+                    continue
+                for a in ast.walk(e.resolved):
+                    if isinstance(a, ast.Attribute) and ".request(" in norm(a.value):
+                        if a.attr in ("value_raw", "units_raw"):
+                            raw.add(norm(a)[:90])
+                        elif a.attr == "value":
+                            typed.add(norm(a)[:90])
+        n += 1
+        what = "an operand taken from a referenced node is its typed current value, not the raw text of its first occurrence"
+        if raw:
+            ctx.violated(rel, q, what, detail=sorted(raw), expected="<requested node>.value.value / .value.unit")
+        else:
+            ctx.form(bool(typed), rel, q, what, detail="no read of a requested node's value found")
+    ctx.floor("solvers scanned for the source of referenced operands", n, 3)
+
+
 RULES = [
     ("C18.R1", "DIP solver configurations: maximal munch, handler exhaustiveness, default step order, blank-delimited symbols, documented priorities and function names", r1_configurations),
     ("C18.R2", "sign rewriting of the DIP copies = sign algebra (sibling decision tables with quantities as atoms)", r2_sign_siblings),
@@ -435,5 +515,6 @@ RULES = [
     ("C18.R6", "template formatting and brace/consumption discipline", r6_templates),
     ("C18.R7", "custom unit factors are recorded in base units by both registration paths", r7_custom_unit_factor),
     ("C18.R9", "solver objects are stateless between atoms and expressions: no method other than the constructor writes a field of the solver", r9_stateless_atoms),
+    ("C18.R10", "operands taken from referenced nodes are the typed current value (value.value / value.unit), never value_raw / units_raw, which re-assignments do not update", r10_current_values),
     ("C18.R8", "comparison semantics: == isclose(rtol=1e-6); != its negation; < > strict in (left, right) order; <= >= strict-or-tolerant; common unit first", r8_comparisons),
 ]
